@@ -51,7 +51,7 @@ Fixpoint history_draws {A} (R : rng) (i : nat) (ops : list (list nat * (list byt
   end.
 
 (* ---- the draw table of the library (getrandom-based backends; sizes in bytes) ---- *)
-Inductive rop := RLocalNonce | RLocalKey | RSecretKey | RPie | RPbkw | RPke.
+Inductive rop := RLocalNonce | RLocalKey | RSecretKey | RPie | RPbkw | RPke | RPublicSign.
 
 Definition op_draws (b : backend) (o : rop) : list nat :=
   match o, b with
@@ -67,6 +67,9 @@ Definition op_draws (b : backend) (o : rop) : list nat :=
   | RPke, B1 => [512]
   | RPke, (B3 | B3A) => [48]
   | RPke, _ => [32]
+  (* signing: Ed25519 and ECDSA (RFC 6979) are deterministic; RSA-PSS draws its salt through the rsa crate's own OsRng
+     (not the intercepted source): no request reaches the source *)
+  | RPublicSign, _ => []
   end.
 
 (* a source that never serves the same non-empty block twice *)
@@ -97,4 +100,4 @@ Fixpoint history_shape (R : rng) (i : nat) (ops : list (list nat)) : list (bool 
 Definition backend_of_nat (n : nat) : backend :=
   match n with 1 => B1 | 2 => B2 | 3 => B3 | 30 => B3A | 4 => B4 | _ => B4S end.
 Definition rop_of_nat (n : nat) : rop :=
-  match n with 0 => RLocalNonce | 1 => RLocalKey | 2 => RSecretKey | 3 => RPie | 4 => RPbkw | _ => RPke end.
+  match n with 0 => RLocalNonce | 1 => RLocalKey | 2 => RSecretKey | 3 => RPie | 4 => RPbkw | 5 => RPke | _ => RPublicSign end.
